@@ -32,6 +32,8 @@ import itertools
 import os
 import pickle
 import signal
+import contextlib
+import io
 
 from okdmr.dmrlib.motorola.mbxml import (
     MBXML,
@@ -200,6 +202,26 @@ def run_buffer(docs):
         return x, "exception_serialise:" + exc_sig(e), repr(e)
     if out != x:
         return x, "reserialised_bytes_differ", f"got {out.hex()}"
+    # the read-only views of a parsed document (XML view, attribute / value getters, repr, str) between two serialisations
+    with contextlib.redirect_stdout(io.StringIO()):
+        for d in parsed:
+            for view in (d.as_xml, lambda d=d: repr(d), lambda d=d: str(d)):
+                try:
+                    view()
+                except Exception:  # noqa: BLE001  (a view that cannot render some value is not this property's business)
+                    pass
+            for part in d.parts:
+                for view in (lambda: part.get_attributes(d), lambda: part.get_value(d), lambda: repr(part), lambda: str(part)):
+                    try:
+                        view()
+                    except Exception:  # noqa: BLE001
+                        pass
+    try:
+        out2 = b"".join(MBXML.as_bytes(d) for d in parsed)
+    except Exception as e:
+        return x, "exception_serialise_after_read_only_views:" + exc_sig(e), repr(e)
+    if out2 != x:
+        return x, "reserialised_bytes_differ_after_read_only_views", f"got {out2.hex()}"
     return x, "ok", ""
 
 
